@@ -453,11 +453,15 @@ func evalChild[K Key, E Entry[K]](
 	if f.keys != nil && !f.containsKey(entryKey) {
 		return false, nil
 	}
+	// A child composed with And can carry a raw pre-screen next to its eval: both are
+	// part of its predicate.
+	if f.raw != nil {
+		if ok, err := f.raw(key, value); err != nil || !ok {
+			return false, err
+		}
+	}
 	if f.eval != nil {
 		return f.eval(ctx, e, key, value)
-	}
-	if f.raw != nil {
-		return f.raw(key, value)
 	}
 	return true, nil
 }
